@@ -23,9 +23,8 @@ THEOREMS = [
     "SC.applyOps_dels_other", "SC.compaction_empty_commit_exact",
     # the bundle: insert + delete + compaction on any number of tables, only FreshSnapshot assumed
     "SC.final_state_exact",
-    # what the code that exists does: refutation of the unconditional statement, by evaluation
-    "SC.stale_snapshot_witness", "SC.delete_after_compaction_witness",
-    "SC.final_state_exact_unconditional_false",
+    # the two defects of the original code (fixed in /repo f6c3dfb, a61a0a6): regression inputs
+    "SC.stale_snapshot_regression", "SC.delete_after_compaction_regression",
 ]
 
 KNOWN_SIGS = {
@@ -109,8 +108,8 @@ def classify(trace, table_id):
     for i, (a, th, name, detail) in enumerate(evs):
         if name == "cmd.begin":
             cur[a] = detail
-        elif name == "cp.pinned":
-            cp_pin[a] = i
+        elif name == "vm.pin" and th == 0 and cur.get(a, "") == "compact":
+            cp_pin[a] = i       # the compactor's most recent pin
         elif name == "cp.locked":
             cp_lock.append((a, i, cp_pin.get(a, -1), detail))
             cp_cur_table[a] = detail
@@ -173,13 +172,13 @@ def final_oracle(trace, reopen=True):
 
 EXHAUSTIVE_TEMPLATES = [
     # one table: a compaction pass against a DELETE (both known mechanisms live here)
-    "(case e1 (gate cmd.begin txn.pinned txn.locked vm.commit.begin vm.committed cp.pinned cp.locked)"
+    "(case e1 (gate cmd.begin txn.lock.begin txn.pinned txn.locked vm.commit.begin vm.committed cp.pass.begin cp.locked)"
     " (setup create:t1 ins:t1:1+2 ins:t1:3) (actors (compact) (del:t1:eq:1)) (sched ) (rng 0) (sticky 0) (script ))",
     # two tables: the stale-snapshot window
-    "(case e2 (gate cmd.begin txn.pinned vm.commit.begin vm.committed cp.pinned cp.locked)"
+    "(case e2 (gate cmd.begin txn.lock.begin txn.pinned vm.commit.begin vm.committed cp.pass.begin cp.locked)"
     " (setup create:t1 create:t2 ins:t1:1+2 ins:t1:3 ins:t2:101 ins:t2:102) (actors (compact) (del:t2:eq:101)) (sched ) (rng 0) (sticky 0) (script ))",
     # compaction against an INSERT
-    "(case e3 (gate cmd.begin txn.pinned vm.commit.begin vm.committed cp.pinned cp.locked)"
+    "(case e3 (gate cmd.begin txn.lock.begin txn.pinned vm.commit.begin vm.committed cp.pass.begin cp.locked)"
     " (setup create:t1 ins:t1:1+2 ins:t1:3) (actors (compact) (ins:t1:7)) (sched ) (rng 0) (sticky 0) (script ))",
 ]
 
